@@ -509,8 +509,10 @@ def gen_malformed(rng, kind):
     return layout(rng, spec, len(entries), ['json', 'gz'])
 
 
-MALFORMED = ['empty-mixed', 'only-empty', 'short-success', 'long-success', 'short-codespace', 'width-mismatch',
-             'narrow', 'odd-width', 'wide']
+# Only the known finding (a zero-trial entry pooled with non-empty ones) is compared.  Pools with zero trials in
+# total (0/0 rates) and entries whose columns have different lengths / widths are modelled (Model/Analysis.lean)
+# but not compared: what numpy does with them is incidental to the property, a refactoring may change it.
+MALFORMED = ['empty-mixed']
 
 
 # ------------------------------------------------------------------ correspondence
@@ -542,7 +544,7 @@ def correspondence(ctx):
     mal = Stream('malformed-entries')
     rates_m = Stream('derived-rates-malformed')
     for kind in MALFORMED:
-        for _ in range(4 if ctx.thorough else 2):
+        for _ in range(12 if ctx.thorough else 4):
             spec = gen_malformed(rng, kind)
             out = run_analysis(spec)
             mal.add(agg_op(spec), canon_impl(out), spec, tag=kind)
